@@ -2,6 +2,7 @@
 """Confirm a seeded breaking change and record it under /verif/seeded/<name>/.
 
   tools/seed.py confirm <name> <property> <dir-with-patch.diff-and-demo> [--skip-suite]
+  tools/seed.py recheck all | <name>...      (re-run the checks against recorded patches, refresh meta.json)
 
 Steps (all in a scratch worktree of /repo HEAD under /tmp, removed afterwards):
   1. build the unchanged tree, compile the demonstration against it, run it: must exit 0;
@@ -41,7 +42,15 @@ def compile_demo(demo, wt, bdir, out):
 
 def run_demo(demo, exe, wt, bdir, cwd):
     if demo.endswith('.py'):
-        env = dict(os.environ, PYTHONPATH=os.path.join(wt, 'src', 'python_bindings'), LD_LIBRARY_PATH=os.path.join(bdir, 'src'))
+        # the package loads libscientific.so (and libblas.so / liblapack.so) from its own directory when it is not installed
+        pk = os.path.join(bdir, 'pybind')
+        if not os.path.exists(pk):
+            shutil.copytree(os.path.join(wt, 'src', 'python_bindings', 'libscientific'), os.path.join(pk, 'libscientific'),
+                            ignore=shutil.ignore_patterns('*.so', '__pycache__'))
+            os.symlink(os.path.join(bdir, 'src', 'libscientific.so'), os.path.join(pk, 'libscientific', 'libscientific.so'))
+            for l in ('libblas.so', 'liblapack.so'):
+                os.symlink(os.path.join('/usr/lib/x86_64-linux-gnu', l), os.path.join(pk, 'libscientific', l))
+        env = dict(os.environ, PYTHONPATH=pk, LD_LIBRARY_PATH=os.path.join(bdir, 'src'))
         return sh('timeout 300 python3 %s' % demo, cwd=cwd, env=env)
     return sh('timeout 300 %s' % exe, cwd=cwd)
 
@@ -61,7 +70,46 @@ def suite(bdir, scratch):
     return res
 
 
+def recheck(name):
+    """re-run every claimed quick check against the recorded patch (scratch copy of /repo/src) and refresh meta.json"""
+    dst = os.path.join(VERIF, 'seeded', name)
+    meta = json.load(open(os.path.join(dst, 'meta.json')))
+    patch = os.path.join(dst, 'patch.diff')
+    tmp_root = tempfile.mkdtemp(prefix='lsv-seedsrc-')
+    checks = {}
+    try:
+        shutil.copytree(os.path.join(REPO, 'src'), os.path.join(tmp_root, 'src'), ignore=shutil.ignore_patterns('tests'))
+        rc, out = sh('patch -p1 -s -f -d %s < %s' % (tmp_root, patch))
+        if rc != 0:
+            meta['recheck_error'] = 'patch no longer applies to HEAD %s: %s' % (sh('git -C %s rev-parse --short HEAD' % REPO)[1].strip(), out[-200:])
+        else:
+            meta.pop('recheck_error', None)
+            man = json.load(open(os.path.join(VERIF, 'MANIFEST.json')))
+            for c in man['checks']:
+                pid = c['property_id']
+                evd = tempfile.mkdtemp(prefix='lsv-ev-')
+                env = dict(os.environ, LSV_EVID=evd, LSV_REPO=tmp_root, LSV_SELFTEST='1')
+                rc, out = sh(c['quick_cmd'], cwd=VERIF, env=env, timeout=1200)
+                checks[pid] = {'exit': rc, 'report': [l[:300] for l in out.splitlines() if l.startswith('src/')][:4]}
+                shutil.rmtree(evd, ignore_errors=True)
+            meta['checks'] = checks
+            meta['checks_run_on'] = 'scratch copy of /repo/src via LSV_REPO (HEAD %s)' % sh('git -C %s rev-parse --short HEAD' % REPO)[1].strip()
+            meta['caught_by'] = sorted(p for p, v in checks.items() if v['exit'] == 1)
+            meta['caught_by_target_property'] = checks.get(meta['property'], {}).get('exit') == 1
+    finally:
+        shutil.rmtree(tmp_root, ignore_errors=True)
+    json.dump(meta, open(os.path.join(dst, 'meta.json'), 'w'), indent=1)
+    print(name, meta['property'], 'caught_by', meta.get('caught_by'), meta.get('recheck_error', ''))
+    return 0
+
+
 def main():
+    if len(sys.argv) >= 3 and sys.argv[1] == 'recheck':
+        names = sorted(os.listdir(os.path.join(VERIF, 'seeded'))) if sys.argv[2] == 'all' else sys.argv[2:]
+        for n in names:
+            if os.path.exists(os.path.join(VERIF, 'seeded', n, 'meta.json')):
+                recheck(n)
+        return 0
     if len(sys.argv) < 5 or sys.argv[1] != 'confirm':
         print(__doc__)
         return 2
